@@ -348,7 +348,8 @@ impl<'a> Planner<'a> {
             LogicalOperator::Limit(limit) => {
                 if let Some(limit_val) = limit.limit {
                     if let LogicalOperator::Sort(sort) = limit.input {
-                        let effective_limit = (limit_val + limit.offset.unwrap_or(0)) as usize;
+                        let effective_limit =
+                            limit_val.saturating_add(limit.offset.unwrap_or(0)) as usize;
                         if let Some(optimized) =
                             index_selector.try_optimize_sort_to_index_scan_with_limit(sort, Some(effective_limit))
                         {
